@@ -1,6 +1,8 @@
 (* Properties_C14.v — C14: ray casting visits a connected, in-bounds chain of cells covering the segment. *)
 From Coq Require Import Reals ZArith List Bool Arith Lia Lra.
 From Romea Require Import Num NumR GridMapModel GridMapProofs RayCastModel RayCastProofs RayCastMerge RayCastSegment RayCastAssembly RayCastBounds.
+From Romea Require Import SrcEigen SrcTieC14 SrcTieC14Cast.
+From Romea.gen Require Import SrcRayCast.
 Import ListNotations.
 
 (* The walk of cast(), over exact arithmetic, for a 2D or 3D caster whose per-axis steps point from the origin
@@ -329,4 +331,218 @@ Proof.
     apply Raux.Ztrunc_IZR. }
   destruct (C14_cast_2d_indexes_fit 1 0 3 0 3 (1/2) (1/2) (5/2) (3/2)) as (F & _); try lra; try assumption.
   eapply Forall_impl; [|exact F]. cbn. intros cl H i Hi. apply (H i Hi).
+Qed.
+
+(* ====================================================================================================
+   SYNTACTIC SOURCE TIE.  gen/SrcRayCast.v is regenerated on every run from the clang AST of the current
+   src/containers/grid/RayTracing.cpp (+ GridIndexMapping.cpp for the calls into the grid) by symbolic execution of the
+   instantiated member functions (translate/tr_C14_raycast.py, translate/eigsym.py).  The theorems below say that the
+   generated terms ARE the functions of RayCastModel.v that every theorem above is about — for every numeric dictionary
+   N (hence at ROps, the instance of the theorems, and at the float dictionaries the correspondence run executes), by
+   computation and case analysis only: the source and the model perform the same operations in the same order.
+   Integers: IdealInt reads size_t / int conversions as the identity (the model's unbounded Z); MachInt wraps.
+   ==================================================================================================== *)
+
+(* the four hand-written specialisations RayCasting<float|double, 2|3>::next, each translated separately, are the model's
+   [next] on 2- resp. 3-element lists: outputs (cellIndexes, rayTMax_) *)
+Theorem C14_source_tie_next : forall (T : Type) (N : NumOps T) (c0 c1 c2 e0 e1 e2 s0 s1 s2 : Z) (d0 d1 d2 t0 t1 t2 : T),
+  src_next_f2 N IdealInt c0 c1 e0 e1 s0 s1 d0 d1 t0 t1 = next N [e0; e1] [s0; s1] [d0; d1] ([c0; c1], [t0; t1]) /\
+  src_next_d2 N IdealInt c0 c1 e0 e1 s0 s1 d0 d1 t0 t1 = next N [e0; e1] [s0; s1] [d0; d1] ([c0; c1], [t0; t1]) /\
+  src_next_f3 N IdealInt c0 c1 c2 e0 e1 e2 s0 s1 s2 d0 d1 d2 t0 t1 t2
+    = next N [e0; e1; e2] [s0; s1; s2] [d0; d1; d2] ([c0; c1; c2], [t0; t1; t2]) /\
+  src_next_d3 N IdealInt c0 c1 c2 e0 e1 e2 s0 s1 s2 d0 d1 d2 t0 t1 t2
+    = next N [e0; e1; e2] [s0; s1; s2] [d0; d1; d2] ([c0; c1; c2], [t0; t1; t2]).
+Proof. exact tie_next_all. Qed.
+Print Assumptions C14_source_tie_next.
+
+(* with machine integers (size_t += int wraps modulo 2^64) the same holds whenever the advanced index is a size_t value —
+   which C14_cast_2d_indexes_fit / C14_cast_3d_indexes_fit prove for every index of a walk *)
+Theorem C14_source_tie_next_machine_integers : forall (T : Type) (N : NumOps T) (c0 c1 c2 e0 e1 e2 s0 s1 s2 : Z) (d0 d1 d2 t0 t1 t2 : T),
+  (0 <= c0 + s0 < 2 ^ 64)%Z -> (0 <= c1 + s1 < 2 ^ 64)%Z -> (0 <= c2 + s2 < 2 ^ 64)%Z ->
+  src_next_f2 N MachInt c0 c1 e0 e1 s0 s1 d0 d1 t0 t1 = next N [e0; e1] [s0; s1] [d0; d1] ([c0; c1], [t0; t1]) /\
+  src_next_d2 N MachInt c0 c1 e0 e1 s0 s1 d0 d1 t0 t1 = next N [e0; e1] [s0; s1] [d0; d1] ([c0; c1], [t0; t1]) /\
+  src_next_f3 N MachInt c0 c1 c2 e0 e1 e2 s0 s1 s2 d0 d1 d2 t0 t1 t2
+    = next N [e0; e1; e2] [s0; s1; s2] [d0; d1; d2] ([c0; c1; c2], [t0; t1; t2]) /\
+  src_next_d3 N MachInt c0 c1 c2 e0 e1 e2 s0 s1 s2 d0 d1 d2 t0 t1 t2
+    = next N [e0; e1; e2] [s0; s1; s2] [d0; d1; d2] ([c0; c1; c2], [t0; t1; t2]).
+Proof. exact next_machine_all. Qed.
+
+(* computeRayNumberOfCells (DIM = 2, 3; float and double instantiations give the same term) is the model's [ncells] *)
+Theorem C14_source_tie_ncells : forall (T : Type) (c : caster (T:=T)),
+  (forall e0 e1 o0 o1, rc_eidx c = [e0; e1] -> rc_oidx c = [o0; o1] -> src_ncells_2 IdealInt e0 e1 o0 o1 = ncells c) /\
+  (forall e0 e1 e2 o0 o1 o2, rc_eidx c = [e0; e1; e2] -> rc_oidx c = [o0; o1; o2] ->
+     src_ncells_3 IdealInt e0 e1 e2 o0 o1 o2 = ncells c).
+Proof. exact tie_ncells_all. Qed.
+
+(* ... and with machine integers (cast<int>(), int arithmetic, conversion of the count to size_t) as soon as the indexes fit int *)
+Theorem C14_source_tie_ncells_machine_integers : forall e0 e1 e2 o0 o1 o2,
+  (0 <= e0 < 2 ^ 31)%Z -> (0 <= e1 < 2 ^ 31)%Z -> (0 <= e2 < 2 ^ 31)%Z ->
+  (0 <= o0 < 2 ^ 31)%Z -> (0 <= o1 < 2 ^ 31)%Z -> (0 <= o2 < 2 ^ 31)%Z ->
+  src_ncells_2 MachInt e0 e1 o0 o1 = src_ncells_2 IdealInt e0 e1 o0 o1 /\
+  src_ncells_3 MachInt e0 e1 e2 o0 o1 o2 = src_ncells_3 IdealInt e0 e1 e2 o0 o1 o2.
+Proof. intros. split; [apply ncells_2_machine | apply ncells_3_machine]; assumption. Qed.
+
+(* setOriginPoint, with gridIndexMapping_->computeCellIndexes inlined from GridIndexMapping.cpp: outputs
+   (rayOriginIndexes_, rayOriginPoint_) are those of the model's [set_origin].  The C++ grid has one resolution r. *)
+Theorem C14_source_tie_set_origin_2d : forall (T : Type) (N : NumOps T) (c : caster (T:=T)) a0 a1 r p0 p1,
+  rc_axes c = [a0; a1] -> ax_r a0 = r -> ax_r a1 = r ->
+  src_setOrigin_2 N p0 p1 r (ax_org a0) (ax_org a1)
+  = (rc_oidx (set_origin N c [p0; p1]), rc_origin (set_origin N c [p0; p1])).
+Proof. exact @tie_setOrigin_2. Qed.
+
+Theorem C14_source_tie_set_origin_3d : forall (T : Type) (N : NumOps T) (c : caster (T:=T)) a0 a1 a2 r p0 p1 p2,
+  rc_axes c = [a0; a1; a2] -> ax_r a0 = r -> ax_r a1 = r -> ax_r a2 = r ->
+  src_setOrigin_3 N p0 p1 p2 r (ax_org a0) (ax_org a1) (ax_org a2)
+  = (rc_oidx (set_origin N c [p0; p1; p2]), rc_origin (set_origin N c [p0; p1; p2])).
+Proof. exact @tie_setOrigin_3. Qed.
+
+(* setEndPoint (computeCellIndexes, computeCellCenterPosition, getCellResolution inlined; the per-axis loop unrolled):
+   outputs (rayDirection_, rayEndIndexes_, rayEndPoint_, rayStep_, rayTDelta_, rayTMax_); the ones the model keeps are those
+   of [set_end].  LitOK N: the dictionary reads the literals 0 and 0.5 as nzero and nhalf (true of ROps: LitOK_R, and of
+   the rounded dictionaries: C13's LitOK_B64 / LitOK_B32).  tab_i: the cell-centre table of axis i, read at the origin
+   index; C13_source_tie_constructor proves that the constructor stores gm_centre there. *)
+Theorem C14_source_tie_set_end_2d : forall (T : Type) (N : NumOps T), LitOK N ->
+  forall (c : caster (T:=T)) a0 a1 r o0 o1 oi0 oi1 e0 e1 (tab0 tab1 : Z -> T),
+  rc_axes c = [a0; a1] -> rc_origin c = [o0; o1] -> rc_oidx c = [oi0; oi1] -> ax_r a0 = r -> ax_r a1 = r ->
+  tab0 oi0 = gm_centre N r (ax_org a0) oi0 -> tab1 oi1 = gm_centre N r (ax_org a1) oi1 ->
+  let '(dir, eidx, ep, step, tdelta, tmax) := src_setEnd_2 N e0 e1 tab0 tab1 r (ax_org a0) (ax_org a1) oi0 oi1 o0 o1 in
+  let c' := set_end N c [e0; e1] in
+  eidx = rc_eidx c' /\ ep = [e0; e1] /\ step = rc_step c' /\ tdelta = rc_tdelta c' /\ tmax = rc_tmax c'.
+Proof. exact @tie_setEnd_2. Qed.
+
+Theorem C14_source_tie_set_end_3d : forall (T : Type) (N : NumOps T), LitOK N ->
+  forall (c : caster (T:=T)) a0 a1 a2 r o0 o1 o2 oi0 oi1 oi2 e0 e1 e2 (tab0 tab1 tab2 : Z -> T),
+  rc_axes c = [a0; a1; a2] -> rc_origin c = [o0; o1; o2] -> rc_oidx c = [oi0; oi1; oi2] ->
+  ax_r a0 = r -> ax_r a1 = r -> ax_r a2 = r ->
+  tab0 oi0 = gm_centre N r (ax_org a0) oi0 -> tab1 oi1 = gm_centre N r (ax_org a1) oi1 ->
+  tab2 oi2 = gm_centre N r (ax_org a2) oi2 ->
+  let '(dir, eidx, ep, step, tdelta, tmax) :=
+    src_setEnd_3 N e0 e1 e2 tab0 tab1 tab2 r (ax_org a0) (ax_org a1) (ax_org a2) oi0 oi1 oi2 o0 o1 o2 in
+  let c' := set_end N c [e0; e1; e2] in
+  eidx = rc_eidx c' /\ ep = [e0; e1; e2] /\ step = rc_step c' /\ tdelta = rc_tdelta c' /\ tmax = rc_tmax c'.
+Proof. exact @tie_setEnd_3. Qed.
+Print Assumptions C14_source_tie_set_end_3d.
+
+(* non-vacuity: the real dictionary reads the literals as the model does *)
+Example C14_source_tie_ex : LitOK ROps.
+Proof. exact LitOK_R. Qed.
+
+(* cast(): the `while (++n != rayNumberOfCells) { next(cur); ray[n] = cur; }` loop is translated to a local fix on a fuel
+   argument (None = the C++ loop would still be running), the returned std::vector to (size, function of the index), with
+   computeRayNumberOfCells and the specialisation of next inlined.  With fuel >= number of cells the generated cast() returns
+   exactly the model's [cast_cells] (the list C14_cast_walk, C14_cells_meet_segment, ... are about) and leaves rayTMax_ as
+   [after_cast] says — for every numeric dictionary. *)
+Theorem C14_source_tie_cast_loop_2d : forall (T : Type) (N : NumOps T) (c : caster (T:=T)) e0 e1 o0 o1 s0 s1 d0 d1 t0 t1 fuel,
+  rc_eidx c = [e0; e1] -> rc_oidx c = [o0; o1] -> rc_step c = [s0; s1] -> rc_tdelta c = [d0; d1] -> rc_tmax c = [t0; t1] ->
+  (Z.to_nat (ncells c) <= fuel)%nat ->
+  match src_cast_2 N IdealInt fuel e0 e1 o0 o1 s0 s1 d0 d1 t0 t1 with
+  | None => False
+  | Some ((k, ray), tmax) =>
+      k = ncells c /\ tmax = rc_tmax (after_cast N c) /\
+      forall j, (j < length (cast_cells N c))%nat -> ray (Z.of_nat j) = nth j (cast_cells N c) []
+  end.
+Proof. exact @tie_cast_2. Qed.
+
+Theorem C14_source_tie_cast_loop_3d : forall (T : Type) (N : NumOps T) (c : caster (T:=T))
+    e0 e1 e2 o0 o1 o2 s0 s1 s2 d0 d1 d2 t0 t1 t2 fuel,
+  rc_eidx c = [e0; e1; e2] -> rc_oidx c = [o0; o1; o2] -> rc_step c = [s0; s1; s2] -> rc_tdelta c = [d0; d1; d2] ->
+  rc_tmax c = [t0; t1; t2] -> (Z.to_nat (ncells c) <= fuel)%nat ->
+  match src_cast_3 N IdealInt fuel e0 e1 e2 o0 o1 o2 s0 s1 s2 d0 d1 d2 t0 t1 t2 with
+  | None => False
+  | Some ((k, ray), tmax) =>
+      k = ncells c /\ tmax = rc_tmax (after_cast N c) /\
+      forall j, (j < length (cast_cells N c))%nat -> ray (Z.of_nat j) = nth j (cast_cells N c) []
+  end.
+Proof. exact @tie_cast_3. Qed.
+Print Assumptions C14_source_tie_cast_loop_3d.
+
+(* cast(origin, end) — the operation the property is about — with setOriginPoint, setEndPoint, cast() and everything they call
+   inlined from the two source files, is the model's OpCastOE: the cells are cast_cells of
+   set_end (set_origin c origin) end, the state left behind is after_cast of it.  tab_i: contents of the grid's cell-centre
+   table of axis i (C13_source_tie_constructor: the constructor stores gm_centre there). *)
+Theorem C14_source_tie_cast_origin_end_2d : forall (T : Type) (N : NumOps T), LitOK N ->
+  forall (c : caster (T:=T)) a0 a1 r p0 p1 e0 e1 (tab0 tab1 : Z -> T) fuel,
+  rc_axes c = [a0; a1] -> ax_r a0 = r -> ax_r a1 = r ->
+  (forall k, tab0 k = gm_centre N r (ax_org a0) k) -> (forall k, tab1 k = gm_centre N r (ax_org a1) k) ->
+  let c' := set_end N (set_origin N c [p0; p1]) [e0; e1] in
+  (Z.to_nat (ncells c') <= fuel)%nat ->
+  match src_castOE_2 N IdealInt fuel p0 p1 e0 e1 tab0 tab1 r (ax_org a0) (ax_org a1) with
+  | None => False
+  | Some ((k, ray), dir, eidx, ep, oidx, op, step, td, tm) =>
+      (k = ncells c' /\ tm = rc_tmax (after_cast N c') /\
+       forall j, (j < length (cast_cells N c'))%nat -> ray (Z.of_nat j) = nth j (cast_cells N c') []) /\
+      oidx = rc_oidx c' /\ op = rc_origin c' /\ eidx = rc_eidx c' /\ step = rc_step c' /\ td = rc_tdelta c'
+  end.
+Proof.
+  intros T N L c a0 a1 r p0 p1 e0 e1 tab0 tab1 fuel Ha R0 R1 T0 T1 c' Hf.
+  pose proof (tie_castOE_2 N L c a0 a1 r p0 p1 e0 e1 tab0 tab1 fuel Ha R0 R1 T0 T1 Hf) as H.
+  unfold castOE_result, cast_result in H.
+  destruct (src_castOE_2 N IdealInt fuel p0 p1 e0 e1 tab0 tab1 r (ax_org a0) (ax_org a1))
+    as [[[[[[[[[[k ray] dir] eidx] ep] oidx] op] step] td] tm]|]; exact H.
+Qed.
+
+Theorem C14_source_tie_cast_origin_end_3d : forall (T : Type) (N : NumOps T), LitOK N ->
+  forall (c : caster (T:=T)) a0 a1 a2 r p0 p1 p2 e0 e1 e2 (tab0 tab1 tab2 : Z -> T) fuel,
+  rc_axes c = [a0; a1; a2] -> ax_r a0 = r -> ax_r a1 = r -> ax_r a2 = r ->
+  (forall k, tab0 k = gm_centre N r (ax_org a0) k) -> (forall k, tab1 k = gm_centre N r (ax_org a1) k) ->
+  (forall k, tab2 k = gm_centre N r (ax_org a2) k) ->
+  let c' := set_end N (set_origin N c [p0; p1; p2]) [e0; e1; e2] in
+  (Z.to_nat (ncells c') <= fuel)%nat ->
+  match src_castOE_3 N IdealInt fuel p0 p1 p2 e0 e1 e2 tab0 tab1 tab2 r (ax_org a0) (ax_org a1) (ax_org a2) with
+  | None => False
+  | Some ((k, ray), dir, eidx, ep, oidx, op, step, td, tm) =>
+      (k = ncells c' /\ tm = rc_tmax (after_cast N c') /\
+       forall j, (j < length (cast_cells N c'))%nat -> ray (Z.of_nat j) = nth j (cast_cells N c') []) /\
+      oidx = rc_oidx c' /\ op = rc_origin c' /\ eidx = rc_eidx c' /\ step = rc_step c' /\ td = rc_tdelta c'
+  end.
+Proof.
+  intros T N L c a0 a1 a2 r p0 p1 p2 e0 e1 e2 tab0 tab1 tab2 fuel Ha R0 R1 R2 T0 T1 T2 c' Hf.
+  pose proof (tie_castOE_3 N L c a0 a1 a2 r p0 p1 p2 e0 e1 e2 tab0 tab1 tab2 fuel Ha R0 R1 R2 T0 T1 T2 Hf) as H.
+  unfold castOE_result, cast_result in H.
+  destruct (src_castOE_3 N IdealInt fuel p0 p1 p2 e0 e1 e2 tab0 tab1 tab2 r (ax_org a0) (ax_org a1) (ax_org a2))
+    as [[[[[[[[[[k ray] dir] eidx] ep] oidx] op] step] td] tm]|]; exact H.
+Qed.
+Print Assumptions C14_source_tie_cast_origin_end_3d.
+
+(* cast(end): the model's OpCastEnd *)
+Theorem C14_source_tie_cast_end_2d : forall (T : Type) (N : NumOps T), LitOK N ->
+  forall (c : caster (T:=T)) a0 a1 r o0 o1 oi0 oi1 e0 e1 (tab0 tab1 : Z -> T) fuel,
+  rc_axes c = [a0; a1] -> rc_origin c = [o0; o1] -> rc_oidx c = [oi0; oi1] -> ax_r a0 = r -> ax_r a1 = r ->
+  tab0 oi0 = gm_centre N r (ax_org a0) oi0 -> tab1 oi1 = gm_centre N r (ax_org a1) oi1 ->
+  (Z.to_nat (ncells (set_end N c [e0; e1])) <= fuel)%nat ->
+  castE_result N (set_end N c [e0; e1]) (src_castE_2 N IdealInt fuel e0 e1 tab0 tab1 r (ax_org a0) (ax_org a1) oi0 oi1 o0 o1).
+Proof. exact @tie_castE_2. Qed.
+
+Theorem C14_source_tie_cast_end_3d : forall (T : Type) (N : NumOps T), LitOK N ->
+  forall (c : caster (T:=T)) a0 a1 a2 r o0 o1 o2 oi0 oi1 oi2 e0 e1 e2 (tab0 tab1 tab2 : Z -> T) fuel,
+  rc_axes c = [a0; a1; a2] -> rc_origin c = [o0; o1; o2] -> rc_oidx c = [oi0; oi1; oi2] ->
+  ax_r a0 = r -> ax_r a1 = r -> ax_r a2 = r ->
+  tab0 oi0 = gm_centre N r (ax_org a0) oi0 -> tab1 oi1 = gm_centre N r (ax_org a1) oi1 ->
+  tab2 oi2 = gm_centre N r (ax_org a2) oi2 ->
+  (Z.to_nat (ncells (set_end N c [e0; e1; e2])) <= fuel)%nat ->
+  castE_result N (set_end N c [e0; e1; e2])
+    (src_castE_3 N IdealInt fuel e0 e1 e2 tab0 tab1 tab2 r (ax_org a0) (ax_org a1) (ax_org a2) oi0 oi1 oi2 o0 o1 o2).
+Proof. exact @tie_castE_3. Qed.
+
+(* non-vacuity: the generated cast() on the caster of C14_ex, with 4 units of fuel, returns its 4 cells, the last being (2,1) *)
+Example C14_source_tie_cast_ex :
+  match src_cast_2 ROps IdealInt 4 2 1 0 0 1 1 2%R 4%R 1%R 2%R with
+  | None => False
+  | Some ((k, ray), _) => k = 4%Z /\ ray 0%Z = [0; 0]%Z /\ ray 3%Z = [2; 1]%Z
+  end.
+Proof.
+  pose (c := {| rc_axes := []; rc_origin := []; rc_oidx := [0; 0]%Z; rc_eidx := [2; 1]%Z;
+                rc_tmax := [1; 2]%R; rc_tdelta := [2; 4]%R; rc_step := [1; 1]%Z |}).
+  pose proof (C14_source_tie_cast_loop_2d R ROps c 2 1 0 0 1 1 2%R 4%R 1%R 2%R 4 eq_refl eq_refl eq_refl eq_refl eq_refl) as H.
+  assert (Hn : ncells c = 4%Z) by reflexivity.
+  destruct (src_cast_2 ROps IdealInt 4 2 1 0 0 1 1 2%R 4%R 1%R 2%R) as [[[k ray] tm]|]; [|apply H; rewrite Hn; lia].
+  destruct H as (Hk & _ & Hr); [rewrite Hn; lia|].
+  destruct C14_ex as (Hlen & Hlast). fold c in Hlen, Hlast.
+  split; [rewrite Hk; exact Hn|]. split.
+  - replace (ray 0%Z) with (ray (Z.of_nat 0)) by reflexivity. rewrite (Hr 0%nat) by (rewrite Hlen; lia). reflexivity.
+  - replace (ray 3%Z) with (ray (Z.of_nat 3)) by reflexivity. rewrite (Hr 3%nat) by (rewrite Hlen; lia).
+    rewrite <- Hlast.
+    assert (HL : forall (l : list (list Z)), length l = 4%nat -> nth 3 l [] = last l []).
+    { intros [|a [|b [|c0 [|d [|x l]]]]] Hl; try discriminate Hl. reflexivity. }
+    apply HL. exact Hlen.
 Qed.
